@@ -300,10 +300,12 @@ def observed_control(s):
 class Model:
     name = 'c05'
 
-    def __init__(self, tls: bool, local: bool) -> None:
-        self.params = {'tls': tls, 'local': local}
+    def __init__(self, tls: bool, local: bool, prior: int = 0) -> None:
+        self.params = {'tls': tls, 'local': local, 'prior': prior}
         self.tls = tls
         self.local = local
+        # connections the server has served (and seen leave) before
+        self.prior = prior
         self._alpha = build_alphabet()
 
     def alphabet(self):
@@ -311,6 +313,19 @@ class Model:
 
     def new(self):
         w = DictWorld(demo_data=True, tls_enabled=self.tls, users={})
+        for k in range(self.prior):
+            # non-initial server: earlier connections came, did something
+            # and left (the second one negotiated TLS and logged in)
+            s0 = w.connect(peer='127.0.0.1' if self.local else '1.2.3.4')
+            w.cmd(s0, b'CAPABILITY')
+            if k % 2 == 1:
+                if self.tls:
+                    w.cmd(s0, b'STARTTLS')
+                w.cmd(s0, b'LOGIN demouser demopass')
+                w.cmd(s0, b'SELECT INBOX')
+            w.cmd(s0, b'LOGOUT')
+            assert s0.task.done()
+        del w.sessions[:]
         ctx = Ctx(w)
         ctx.connect(peer='127.0.0.1' if self.local else '1.2.3.4')
         ctx.extra['fsm'] = FSM(self.tls, self.local)
@@ -490,7 +505,9 @@ class Model:
 
 
 BAD_LIMIT = 5
-CONFIGS = [(False, False), (True, False), (True, True), (False, True)]
+CONFIGS = [(False, False), (True, False), (True, True), (False, True),
+           # the third connection the server serves
+           (True, False, 2), (True, True, 2)]
 
 # ---- delivery timing: the same command sequence, delivered differently -------
 #
@@ -575,7 +592,7 @@ def _pair_run(model, history, e1, e2, mode):
 
 def _pair_task(args):
     params, history, e1 = args
-    m = Model(params['tls'], params['local'])
+    m = Model(params['tls'], params['local'], params.get('prior', 0))
     out = []
     n = 0
     for e2 in range(len(m._alpha)):
@@ -621,11 +638,14 @@ def run(*, tier, seed, jobs, progress, opts):
     cov = {'configs': [], 'states': 0, 'transitions': 0,
            'traces_validated_against_impl': 0, 'samples': []}
     errors = []
-    for tls, local in configs:
-        m = Model(tls, local)
-        res = bfs(m, depth, jobs=jobs, seed=seed, progress=progress)
+    for tls, local, *rest in configs:
+        prior = rest[0] if rest else 0
+        m = Model(tls, local, prior)
+        res = bfs(m, depth - 1 if prior and tier == 'quick' else depth,
+                  jobs=jobs, seed=seed, progress=progress)
         c = res.coverage(m)
-        cov['configs'].append({'tls_offered': tls, 'local_peer': local, **{
+        cov['configs'].append({'tls_offered': tls, 'local_peer': local,
+                               'earlier_connections': prior, **{
             k: c[k] for k in ('states', 'transitions', 'depth_completed',
                               'frontier_sizes', 'state_cap_hit',
                               'single_outcome_events')}})
@@ -634,15 +654,16 @@ def run(*, tier, seed, jobs, progress, opts):
         cov['traces_validated_against_impl'] += c['transitions']
         cov['samples'] += [[e['name'] for e in smp] for smp in c['samples'][:3]]
         cov.setdefault('distinct_outcomes_per_event', {})[
-            f'tls={tls},local={local}'] = {
+            f'tls={tls},local={local}' + (f',prior={prior}' if prior else '')] = {
             e['name']: len(res.outcomes_per_event.get(i, ()))
             for i, e in enumerate(m.alphabet())}
         violations += res.violations
         errors += res.errors
         # delivery-timing differential on the states reached so far
         pdepth = int(opts.get('pair_depth', 2 if tier == 'quick' else 3))
-        if (tls, local) not in ([(False, False)] if tier == 'quick'
-                                else [(False, False), (True, True)]):
+        if prior or (tls, local) not in (
+                [(False, False)] if tier == 'quick'
+                else [(False, False), (True, True)]):
             continue
         names = [e['name'] for e in m.alphabet()]
         quick_e1 = [names.index(n) for n in E1_QUICK]
@@ -696,7 +717,8 @@ def run(*, tier, seed, jobs, progress, opts):
 
 def replay(rec):
     r = rec['replay']
-    m = Model(r['params']['tls'], r['params']['local'])
+    m = Model(r['params']['tls'], r['params']['local'],
+              r['params'].get('prior', 0))
     if r.get('pair'):
         base = _pair_run(m, r['history'], r['e1'], r['e2'], 'quiescent')
         got = _pair_run(m, r['history'], r['e1'], r['e2'], r['mode'])
